@@ -2,6 +2,7 @@ package sim
 
 import (
 	"fmt"
+	"math/rand"
 	"sort"
 	"testing"
 	"time"
@@ -519,6 +520,7 @@ func famLeaseIso(t *testing.T, seed int64, steps int) *Cluster {
 			c.Net.SetBlocked(L, v, true)
 		}
 	}
+	termCut := c.byID[L].Raft.CurrentTerm()
 	c.Tr.Emit("part", "", M{"op": "cutvoters", "a": L, "blocked": c.blockedJSON()})
 	// fine ticks so that the step-down bound can be judged; the non-voters keep answering
 	end := time.Now().Add(6 * opt.Lease)
@@ -528,7 +530,7 @@ func famLeaseIso(t *testing.T, seed int64, steps int) *Cluster {
 	}
 	if seed%2 == 1 {
 		// a majority of the voters kept answering all the time: the leader must still be the leader
-		c.Tr.Emit("assertleader", L, M{"term": c.byID[L].Raft.CurrentTerm()})
+		c.Tr.Emit("assertleader", L, M{"term": termCut})
 	}
 	c.Net.HealAll()
 	c.Tr.Emit("part", "", M{"op": "heal", "blocked": c.blockedJSON()})
@@ -957,6 +959,7 @@ func famNotifyShort(t *testing.T, seed int64, steps int) *Cluster {
 	opt.Family = "notifyshort"
 	opt.NotifyBuf = int(seed % 2) // unbuffered, or one slot
 	opt.PreVoteOff = true          // an isolated server runs ahead in term
+	opt.HBFast = seed%4 >= 2       // a server blocked handing over a notification still takes heartbeats (fast path)
 	c := NewCluster(t, opt)
 	c.Bootstrap()
 	c.StartAll()
@@ -994,7 +997,18 @@ func famNotifyShort(t *testing.T, seed int64, steps int) *Cluster {
 	c.Transfer(L0, F)
 	c.Settle("client")
 	c.healAll()
-	c.Drive(8*opt.Election, nil, nil)
+	// (fast-path variant: only F's consumer is stalled; the others elect a successor whose heartbeats reach F
+	// while F is still handing over its "true")
+	c.Drive(8*opt.Election, nil, func() bool {
+		if opt.HBFast {
+			for _, n := range c.Nodes {
+				for n.Up && n.ID != F && c.ConsumeNotify(n.ID) {
+					c.Settle("consume")
+				}
+			}
+		}
+		return false
+	})
 	// the consumers come back
 	for i := 0; i < 6; i++ {
 		drain()
@@ -1430,5 +1444,360 @@ func famCTCrash(t *testing.T, seed int64, steps int) *Cluster {
 	}
 	c.Drive(300*time.Millisecond, nil, nil)
 	c.converge(600 * time.Millisecond)
+	return c
+}
+
+// famAPIBound: on a running, connected cluster every public call is answered within a bound (C17), whatever was the
+// last thing that happened before it (a membership change, a snapshot, a restore, a transfer, nothing) and with no
+// later traffic to help it along. Each round: a prelude, a quiet period, a few calls on the leader and on a follower,
+// a bounded wait with a healthy network, and the assertion that every call has returned.
+func famAPIBound(t *testing.T, seed int64, steps int) *Cluster {
+	opt := DefaultOptions(seed)
+	opt.Family = "apibound"
+	opt.Servers = []string{"n1", "n2", "n3", "n4"}
+	opt.Initial = map[string]string{"n1": "V", "n2": "V", "n3": "V"}
+	opt.CfgStoreFSM = seed%3 == 0
+	opt.BatchFSM = seed%4 == 1
+	opt.BatchApplyCh = seed%5 == 2
+	opt.Mono = seed%2 == 1
+	opt.Trailing = uint64(seed % 3)
+	c := NewCluster(t, opt)
+	c.Bootstrap()
+	c.StartAll()
+	if seed%6 != 5 { // (seed%6 == 5: the server that joins is not running)
+		c.Start("n4")
+		c.Settle("restart")
+	}
+	if c.WaitLeader(2*time.Second) == "" {
+		return c
+	}
+	rng := rand.New(rand.NewSource(seed*7919 + 11))
+	bound := 10 * opt.Election
+	for i := 0; i < 2; i++ {
+		c.Apply(c.Leader(), 0)
+		c.Settle("client")
+	}
+	c.Drive(100*time.Millisecond, nil, nil)
+	n4 := "" // n4's suffrage: "", "N", "V"
+	for round := 0; round < 5; round++ {
+		L := c.Leader()
+		if L == "" {
+			if L = c.WaitLeader(2 * time.Second); L == "" {
+				break
+			}
+		}
+		var followers []string
+		for _, id := range []string{"n1", "n2", "n3"} {
+			if id != L {
+				followers = append(followers, id)
+			}
+		}
+		F := followers[rng.Intn(len(followers))]
+		// prelude
+		var pre *ClientOp
+		cfgPre := false
+		switch rng.Intn(6) {
+		case 0:
+			pre = c.Apply(L, 0)
+		case 1, 2: // a membership change, and nothing after it
+			cfgPre = true
+			switch n4 {
+			case "":
+				if rng.Intn(2) == 0 {
+					pre, n4 = c.Member(L, "addnonvoter", "n4", 0, 0), "N"
+				} else {
+					pre, n4 = c.Member(L, "addvoter", "n4", 0, 0), "V"
+				}
+			case "N":
+				pre, n4 = c.Member(L, "addvoter", "n4", 0, 0), "V"
+			default:
+				if rng.Intn(2) == 0 {
+					pre, n4 = c.Member(L, "demote", "n4", 0, 0), "N"
+				} else {
+					pre, n4 = c.Member(L, "remove", "n4", 0, 0), ""
+				}
+			}
+		case 3:
+			pre = c.UserSnapshot(L)
+		case 4:
+			last := c.byID[L].Raft.LastIndex()
+			pre = c.UserRestore(L, []string{fmt.Sprintf("u%d.%d", seed, round)}, last+uint64(rng.Intn(3)), 1, 0)
+		default:
+		}
+		c.Settle("client")
+		c.Drive(bound, nil, func() bool { return pre == nil || pre.Done })
+		c.Drive(60*time.Millisecond, nil, nil)
+		if pre != nil {
+			c.Tr.Emit("assertdone", pre.Node, M{"op": pre.ID, "kind": pre.Kind, "bound_us": (bound + 60*time.Millisecond).Microseconds()})
+		}
+		if c.Leader() != L {
+			continue
+		}
+		// the calls
+		var ops []*ClientOp
+		for k := 0; k < 3; k++ {
+			var op *ClientOp
+			pick := rng.Intn(9)
+			if k == 0 && cfgPre && rng.Intn(2) == 0 {
+				pick = 0
+			}
+			switch pick {
+			case 0:
+				op = c.UserSnapshot(L)
+			case 1:
+				op = c.UserSnapshot(F)
+			case 2:
+				op = c.Barrier(L, 0)
+			case 3:
+				op = c.Verify(L)
+			case 4:
+				op = c.Apply(F, 0)
+			case 5:
+				op = c.Verify(F)
+			case 6:
+				op = c.Member(F, "addnonvoter", "n4", 0, 0)
+			case 7:
+				op = c.Barrier(F, 0)
+			default:
+				op = c.UserSnapshot(L)
+			}
+			c.Settle("client")
+			if op != nil {
+				ops = append(ops, op)
+			}
+		}
+		c.Drive(bound, nil, func() bool {
+			for _, op := range ops {
+				if !op.Done {
+					return false
+				}
+			}
+			return true
+		})
+		for _, op := range ops {
+			c.Tr.Emit("assertdone", op.Node, M{"op": op.ID, "kind": op.Kind, "bound_us": bound.Microseconds()})
+		}
+	}
+	c.converge(500 * time.Millisecond)
+	return c
+}
+
+// famLeaseAdd: a voter is added whose answers the lease quorum needs at once (1 -> 2 voters; 3 -> 4 with one voter
+// unreachable). Its first responses arrive a little less than one LeaderLeaseTimeout after the change, later ones
+// promptly: the majority never stopped responding, so the lease check must not depose the leader (C13).
+func famLeaseAdd(t *testing.T, seed int64, steps int) *Cluster {
+	opt := DefaultOptions(seed)
+	opt.Family = "leaseadd"
+	single := seed%2 == 0
+	if single {
+		opt.Servers = []string{"n1", "n2"}
+		opt.Initial = map[string]string{"n1": "V"}
+	} else {
+		opt.Servers = []string{"n1", "n2", "n3", "n4"}
+		opt.Initial = map[string]string{"n1": "V", "n2": "V", "n3": "V"}
+	}
+	opt.HBFast = seed%4 >= 2
+	c := NewCluster(t, opt)
+	c.Bootstrap()
+	c.StartAll()
+	L := c.WaitLeader(2 * time.Second)
+	if L == "" {
+		return c
+	}
+	c.Apply(L, 0)
+	c.Settle("client")
+	c.RunQuiet(time.Duration(40+seed%30)*time.Millisecond, 2*time.Millisecond)
+	if c.Leader() != L {
+		c.converge(500 * time.Millisecond)
+		return c
+	}
+	N := "n2"
+	if !single {
+		N = "n4"
+		var others []string
+		for _, id := range []string{"n1", "n2", "n3"} {
+			if id != L {
+				others = append(others, id)
+			}
+		}
+		down := others[int(seed/2)%2]
+		c.Net.SetBlocked(L, down, true)
+		c.Tr.Emit("part", "", M{"op": "cut", "a": L, "blocked": c.blockedJSON()})
+		c.RunQuiet(10*time.Millisecond, 2*time.Millisecond)
+	}
+	c.Start(N)
+	c.Settle("restart")
+	term0 := c.byID[L].Raft.CurrentTerm()
+	if seed%3 == 0 {
+		// first as a non-voter that is caught up, then promoted
+		c.Member(L, "addnonvoter", N, 0, 0)
+		c.Settle("client")
+		c.RunQuiet(40*time.Millisecond, 2*time.Millisecond)
+	}
+	op := c.Member(L, "addvoter", N, 0, 0)
+	c.Settle("client")
+	// N's traffic is slow for a little less than one lease timeout
+	notN := func(r *Rpc) bool { return r.Src != N && r.Dst != N }
+	hold := opt.Lease - time.Duration(1+seed%5)*time.Millisecond
+	end := time.Now().Add(hold)
+	for time.Now().Before(end) {
+		c.Drive(0, notN, nil)
+		c.Tick(time.Millisecond)
+	}
+	end = time.Now().Add(4 * opt.Lease)
+	for time.Now().Before(end) {
+		c.DeliverAll(300)
+		c.Tick(time.Duration(1+c.Rng.Intn(3)) * time.Millisecond)
+	}
+	c.Tr.Emit("assertleader", L, M{"term": term0})
+	if op != nil {
+		c.Tr.Emit("assertdone", L, M{"op": op.ID, "kind": op.Kind, "bound_us": (5 * opt.Lease).Microseconds()})
+	}
+	c.Net.HealAll()
+	c.Tr.Emit("part", "", M{"op": "heal", "blocked": c.blockedJSON()})
+	c.converge(600 * time.Millisecond)
+	return c
+}
+
+// exchange delivers the oldest parked request of the given kind from src to dst and then its response.
+func (c *Cluster) exchange(kind, src, dst string) bool {
+	for _, r := range c.Net.Pending() {
+		if r.Kind == kind && r.Src == src && r.Dst == dst && r.Phase == phReq {
+			c.Net.Deliver(r)
+			c.Settle("deliver")
+			c.Net.Reply(r)
+			c.Settle("net")
+			return true
+		}
+	}
+	return false
+}
+
+// famVerifyWide: four or five voters; the leader L reaches a single follower X, so L and X together are NOT a
+// majority and no VerifyLeader call may succeed (C09), however X's answers are interleaved: a replication response
+// and a heartbeat response of X for the same verification, in either order, several verifications at once,
+// duplicated responses. (The lease is long enough that L is still leader while the calls are judged.)
+func famVerifyWide(t *testing.T, seed int64, steps int) *Cluster {
+	opt := DefaultOptions(seed)
+	opt.Family = "verifywide"
+	if seed%2 == 0 {
+		opt.Servers = []string{"n1", "n2", "n3", "n4", "n5"}
+		opt.Initial = map[string]string{"n1": "V", "n2": "V", "n3": "V", "n4": "V", "n5": "V"}
+	} else {
+		opt.Servers = []string{"n1", "n2", "n3", "n4", "n5"}
+		opt.Initial = map[string]string{"n1": "V", "n2": "V", "n3": "V", "n4": "V", "n5": "N"}
+	}
+	opt.Lease = opt.Heartbeat
+	c := NewCluster(t, opt)
+	c.Bootstrap()
+	c.StartAll()
+	L := c.WaitLeader(2 * time.Second)
+	if L == "" {
+		return c
+	}
+	c.Apply(L, 0)
+	c.Settle("client")
+	c.Drive(100*time.Millisecond, nil, nil)
+	if c.Leader() != L {
+		c.converge(500 * time.Millisecond)
+		return c
+	}
+	var voters []string
+	for id, s := range opt.Initial {
+		if s == "V" && id != L {
+			voters = append(voters, id)
+		}
+	}
+	sort.Strings(voters)
+	X := voters[int(seed/2)%len(voters)]
+	for _, v := range voters {
+		if v != X {
+			c.Net.SetBlocked(L, v, true)
+		}
+	}
+	c.Tr.Emit("part", "", M{"op": "cutvoters", "a": L, "blocked": c.blockedJSON()})
+	c.dropPendingFrom(L)
+	// a write: its AppendEntries to X is in flight
+	c.Apply(L, 0)
+	c.Settle("client")
+	var ops []*ClientOp
+	for i := 0; i < 1+int(seed%3); i++ {
+		ops = append(ops, c.Verify(L))
+		c.Settle("client")
+	}
+	// X's answers, in an order chosen by the seed
+	order := [][]string{{"ae", "hb"}, {"hb", "ae"}, {"ae", "hb", "ae", "hb"}, {"hb", "hb", "ae"}}[int(seed/3)%4]
+	for _, k := range order {
+		c.exchange(k, L, X)
+	}
+	for i := 0; i < 6; i++ {
+		for _, r := range c.Net.Pending() {
+			if r.Src == L && r.Dst == X && r.Phase == phReq {
+				c.exchange(r.Kind, L, X)
+			}
+		}
+		c.Tick(2 * time.Millisecond)
+	}
+	// L loses its lease eventually: every verification has been refused by then
+	c.Drive(4*opt.Lease, nil, nil)
+	for _, op := range ops {
+		if op != nil {
+			c.Tr.Emit("assertdone", L, M{"op": op.ID, "kind": "verify", "bound_us": (4 * opt.Lease).Microseconds()})
+		}
+	}
+	c.healAll()
+	c.converge(600 * time.Millisecond)
+	return c
+}
+
+// famFastPathTerm: the heartbeat fast path against a candidate whose term write is slow. A's traffic to B is late,
+// B becomes a candidate and starts persisting term T+1; while that write is in progress a heartbeat of A (term T) is
+// handled on B's transport goroutine and names A as B's leader; then the write completes. B must not advertise A as
+// the leader of term T+1, which A never led (C18), and nobody acts as leader of a term it did not win (C01).
+func famFastPathTerm(t *testing.T, seed int64, steps int) *Cluster {
+	opt := DefaultOptions(seed)
+	opt.Family = "fastpathterm"
+	opt.HBFast = true
+	opt.PreVoteOff = true
+	c := NewCluster(t, opt)
+	c.Bootstrap()
+	c.StartAll()
+	A := c.WaitLeader(2 * time.Second)
+	if A == "" {
+		return c
+	}
+	var others []string
+	for _, id := range opt.Servers {
+		if id != A {
+			others = append(others, id)
+		}
+	}
+	B := others[int(seed)%2]
+	for i := 0; i < 1+int(seed%3); i++ {
+		c.Apply(A, 0)
+		c.Settle("client")
+	}
+	c.Drive(100*time.Millisecond, nil, nil)
+	if c.Leader() != A {
+		c.converge(500 * time.Millisecond)
+		return c
+	}
+	bn := c.byID[B]
+	bn.inc.mu.Lock()
+	bn.inc.parkAt = 1 + int(seed/2)%3 // the term, the candidate or the vote's term (PersistVote writes candidate first)
+	bn.inc.mu.Unlock()
+	lateAB := func(r *Rpc) bool { return !(r.Src == A && r.Dst == B) }
+	parked := c.Drive(6*opt.Election, lateAB, func() bool { return bn.inc.Parked() })
+	if parked {
+		// A's late heartbeats arrive now, then the disk write completes
+		for i := 0; i < 1+int(seed/6)%2; i++ {
+			c.exchange("hb", A, B)
+		}
+		bn.inc.Unpark()
+		c.Settle("diskdone")
+	}
+	c.Drive(20*time.Millisecond, lateAB, nil)
+	c.Drive(200*time.Millisecond, nil, nil)
+	c.converge(500 * time.Millisecond)
 	return c
 }
